@@ -45,13 +45,22 @@ func c07Raw(t []byte) string {
 	if len(t) == 0 {
 		return "{nil}"
 	}
+	// Raw text of a tree can come from a {literal} block (" // x", "/* x */", braces): printed bare, "//" after a
+	// space or "/*" would open a comment that swallows the rest of the line / the text up to "*/" (and with it lets,
+	// uses, {for} tags: the reprinted bundle would be a DIFFERENT bundle).  Braces are printed as {lb}/{rb}, and the
+	// two bytes of a comment opener are separated by {nil}, after which the lexer's previous character is '}'.
 	var sb strings.Builder
-	for _, c := range t {
+	for i, c := range t {
 		switch c {
 		case '{':
 			sb.WriteString("{lb}")
 		case '}':
 			sb.WriteString("{rb}")
+		case '/':
+			sb.WriteByte(c)
+			if i+1 < len(t) && (t[i+1] == '/' || t[i+1] == '*') {
+				sb.WriteString("{nil}")
+			}
 		default:
 			sb.WriteByte(c)
 		}
@@ -436,6 +445,22 @@ func (w *c07Walker) list(n ast.Node, env, loops []string, start int, after *insP
 						insertAt(l, i, &ast.PrintNode{Arg: &ast.FunctionNode{Name: "index", Args: []ast.Node{refNode(q)}}})
 					})
 					break
+				}
+			}
+			// C14-loopfunc-shape: inside a loop, a loop function on anything but that one plain variable
+			if len(loops) > 0 {
+				q := loops[len(loops)-1]
+				for si, args := range [][]ast.Node{
+					{},
+					{intLitNode(1)},
+					{&ast.DataRefNode{Key: q, Access: []ast.Node{&ast.DataRefKeyNode{Key: "y"}}}},
+					{refNode(q), refNode(q)},
+					{&ast.StringNode{Value: q}},
+				} {
+					args, fn := args, []string{"isLast", "isFirst", "index"}[si%3]
+					w.add("loopfunc-bad-shape", fmt.Sprintf("shape%d:%s", si, what), func() {
+						insertAt(l, i, &ast.PrintNode{Arg: &ast.FunctionNode{Name: fn, Args: args}})
+					})
 				}
 			}
 			break
@@ -930,6 +955,51 @@ func c07Parse(files []srcFile) ([]*ast.SoyFileNode, error) {
 	return out, nil
 }
 
+// c07Shape is the tree without its raw text (node types in order, with the names the data-reference rules read):
+// printing a tree and parsing the result must keep it, or the printer has produced a DIFFERENT bundle (a comment
+// opener in raw text swallowing tags, say) and no verdict about that bundle says anything about the tree.
+func c07Shape(n ast.Node, sb *strings.Builder) {
+	switch n := n.(type) {
+	case nil:
+		return
+	case *ast.RawTextNode, *ast.IntNode, *ast.FloatNode:
+		return
+	case *ast.NegateNode: // -(4) is printed (-4), which parses to the literal
+		c07Shape(n.Arg, sb)
+		return
+	case *ast.DataRefNode:
+		sb.WriteString("$" + n.Key)
+	case *ast.LetValueNode:
+		sb.WriteString("let:" + n.Name)
+	case *ast.LetContentNode:
+		sb.WriteString("letc:" + n.Name)
+	case *ast.ForNode:
+		sb.WriteString("for:" + n.Var)
+	case *ast.CallNode:
+		sb.WriteString("call:" + n.Name)
+	case *ast.FunctionNode:
+		sb.WriteString("fn:" + n.Name)
+	default:
+		fmt.Fprintf(sb, "%T", n)
+	}
+	if p, ok := n.(ast.ParentNode); ok {
+		sb.WriteString("(")
+		for _, c := range p.Children() {
+			c07Shape(c, sb)
+		}
+		sb.WriteString(")")
+	}
+}
+
+func c07ShapeOf(trees []*ast.SoyFileNode) string {
+	var sb strings.Builder
+	for _, t := range trees {
+		c07Shape(t, &sb)
+		sb.WriteString("\n")
+	}
+	return sb.String()
+}
+
 func c07FilesSexp(trees []*ast.SoyFileNode, ids *idTable) string {
 	var fs []string
 	for _, t := range trees {
@@ -1098,15 +1168,49 @@ func c07Render(e *env, files []srcFile, tmpls []*gtemplate, o progOpts, trees []
 		}
 		return declared
 	}
+	// the call hook (notes/pending/C07-callhook.diff) reports the template that is executing: with it the oracle is
+	// exactly "every miss is a declared param of the executing template"; a tree without the hook is judged by the
+	// approximation above (declared by some template the entry template can reach)
+	hook, exact := interface{}(tofu).(interface {
+		VerifSetCallObserver(func(string, bool))
+	})
 	for _, t := range tmpls {
 		d := genData(e.rng, t.params, o)
 		if t.rec {
 			d = data.Map{"n": data.Int(3)} // the countdown template recurses n times: a large n is C06's business
 		}
-		var missed []string
-		soyhtml.VerifUnboundObserver = func(k string) { missed = append(missed, k) }
+		var missed, foreign []string
+		stack := []string{t.full()}
+		if exact {
+			hook.VerifSetCallObserver(func(name string, enter bool) {
+				if enter {
+					stack = append(stack, name)
+				} else if len(stack) > 1 {
+					stack = stack[:len(stack)-1]
+				}
+			})
+		}
+		soyhtml.VerifUnboundObserver = func(k string) {
+			missed = append(missed, k)
+			if exact {
+				cur := stack[len(stack)-1]
+				ok := false
+				for _, p := range byName[cur].params {
+					ok = ok || p.name == k
+				}
+				if !ok {
+					foreign = append(foreign, cur+":$"+k)
+				}
+			}
+		}
 		out, rerr := render(tofu, t.full(), d, data.Map{"k": data.Int(1)})
 		soyhtml.VerifUnboundObserver = nil
+		if exact {
+			hook.VerifSetCallObserver(nil)
+			e.res.Histogram["render:oracle=executing-template"]++
+		} else {
+			e.res.Histogram["render:oracle=reachable-templates"]++
+		}
 		dsx := valueSexp(d, ids)
 		pc := c07Case{Files: files, Template: t.full(), Data: dsx}
 		e.res.Count(fmt.Sprint(files)+t.full()+dsx, true, "render")
@@ -1117,7 +1221,11 @@ func c07Render(e *env, files []srcFile, tmpls []*gtemplate, o progOpts, trees []
 			e.res.Fail(hx.Violation{Kind: "oracle", What: "rendering an accepted template with all declared params supplied looks up names that nothing binds", Case: pc,
 				Expected: "no unbound lookup", Observed: fmt.Sprint(missed)}, "")
 		}
-		if !total {
+		if exact && len(foreign) > 0 && !isPanicErr(rerr) {
+			e.res.Fail(hx.Violation{Kind: "oracle", What: "rendering an accepted template looks up a name that is neither bound nor a declared param of the executing template", Case: pc,
+				Expected: "only declared params of the executing template that its caller did not pass may be missing", Observed: fmt.Sprint(foreign)}, "")
+		}
+		if !total && !exact {
 			declared := declaredFrom(t.full())
 			for _, k := range missed {
 				if !declared[k] {
@@ -1178,6 +1286,11 @@ var c07Corpus = []struct {
 	{"data expr excuses required params", true, "{namespace ns}\n/** @param p */\n{template .t}\n{call .u data=\"$p\" /}\n{/template}\n/** @param q */\n{template .u}\n{$q}\n{/template}\n"},
 	{"optional param may be omitted", true, "{namespace ns}\n/** @param p */\n{template .t}\n{$p}{call .u /}\n{/template}\n/** @param? q */\n{template .u}\n{if $q}y{/if}\n{/template}\n"},
 	{"index of a loop variable shadowed by a let", true, "{namespace ns}\n/** @param p */\n{template .t}\n{foreach $x in [1,2]}{let $x: $p /}{index($x)}{/foreach}\n{/template}\n"},
+	{"isFirst without arguments", false, "{namespace ns}\n/** @param p */\n{template .t}\n{foreach $x in $p}{$x}{if isFirst()}y{/if}{/foreach}\n{/template}\n"},
+	{"isLast of a literal", false, "{namespace ns}\n/** @param p */\n{template .t}\n{foreach $x in $p}{$x}{isLast(1)}{/foreach}\n{/template}\n"},
+	{"isLast of a field of the loop variable", false, "{namespace ns}\n/** @param p */\n{template .t}\n{foreach $x in $p}{isLast($x.y)}{/foreach}\n{/template}\n"},
+	{"index of two loop variables", false, "{namespace ns}\n/** @param p */\n{template .t}\n{foreach $x in $p}{index($x, $x)}{/foreach}\n{/template}\n"},
+	{"index of an expression over the loop variable", false, "{namespace ns}\n/** @param p */\n{template .t}\n{foreach $x in $p}{index($x ?: 1)}{/foreach}\n{/template}\n"},
 	{"index of a param", false, "{namespace ns}\n/** @param p */\n{template .t}\n{index($p)}\n{/template}\n"},
 	{"isLast of a let", false, "{namespace ns}\n/** @param p */\n{template .t}\n{$p}{let $x: 1 /}{if isLast($x)}y{/if}\n{/template}\n"},
 	{"template name defined twice", false, "{namespace ns}\n/** @param p */\n{template .t}\n{$p}\n{/template}\n/** @param p */\n{template .t}\n{$p}\n{/template}\n"},
@@ -1221,7 +1334,7 @@ var c07Corpus = []struct {
 }
 
 func runC07(e *env) {
-	e.res.Rule = "bundles from the command grammar (depth<=3, 1-5 templates, soydoc or header params, optional params, all call forms; half with every call passing every callee param) parsed by robfig/soy; each of the single-rule violations (undeclared name, use after the block, use before definition, loop variable outside its loop, unused param, unused let, let named ij, undeclared call param, missing required param, unknown callee, soydoc+header params, header param not at head, loop function on a non-loop variable) injected at every applicable site of the parsed tree and printed back to source. Real compiler vs Coq model of Registry.Add+CheckDataRefs vs Spec wf_bundle; renders of every template of accepted bundles with all declared params supplied count unbound lookups through the hook. Distinct by source text."
+	e.res.Rule = "bundles from the command grammar (depth<=3, 1-5 templates, soydoc or header params, optional params, all call forms; half with every call passing every callee param) parsed by robfig/soy; each of the single-rule violations (undeclared name, use after the block, use before definition, loop variable outside its loop, unused param, unused let, let named ij, undeclared call param, missing required param, unknown callee, soydoc+header params, header param not at head, loop function on a non-loop variable, loop function inside a loop on anything but one plain loop variable) injected at every applicable site of the parsed tree and printed back to source. Real compiler vs Coq model of Registry.Add+CheckDataRefs vs Spec wf_bundle; renders of every template of accepted bundles with all declared params supplied count unbound lookups through the hook. Distinct by source text."
 	if e.replay != "" {
 		c07Replay(e)
 		return
@@ -1289,6 +1402,8 @@ func runC07(e *env) {
 		}
 		if rt, err := c07Parse(re); err != nil {
 			e.res.Fail(hx.Violation{Kind: "mismatch", What: "harness: the printed tree of a valid bundle does not parse", Case: c07Case{Files: re}, Observed: err.Error()}, "")
+		} else if c07ShapeOf(rt) != c07ShapeOf(trees) {
+			e.res.Fail(hx.Violation{Kind: "mismatch", What: "harness: the printed tree of a valid bundle parses to a different tree (source printer of c07.go)", Case: c07Case{Files: re}, Observed: c07ShapeOf(rt) + "\n=====\n" + c07ShapeOf(trees)}, "")
 		} else {
 			pend = append(pend, c07Pending{c: c07Case{Files: re}, valid: true, realErr: c07Compile(re)})
 			reqs = append(reqs, "c07_compile "+c07FilesSexp(rt, ids))
@@ -1310,6 +1425,7 @@ func runC07(e *env) {
 			}
 			s := sites[k]
 			s.apply()
+			mshape := c07ShapeOf(fresh)
 			var mf []srcFile
 			for _, t := range fresh {
 				mf = append(mf, srcFile{t.Name, c07FileSrc(t)})
@@ -1319,6 +1435,9 @@ func runC07(e *env) {
 			if err != nil {
 				e.res.Fail(hx.Violation{Kind: "mismatch", What: "harness: a mutated tree does not print to parsable source", Case: c, Observed: err.Error()}, "")
 				continue
+			}
+			if got := c07ShapeOf(mt); got != mshape {
+				e.res.Histogram["mutated-tree-reparses-differently"]++
 			}
 			pend = append(pend, c07Pending{c: c, valid: false, realErr: c07Compile(mf)})
 			reqs = append(reqs, "c07_compile "+c07FilesSexp(mt, ids))
